@@ -267,6 +267,16 @@ class PhaseConf:
         return [z3.Implies(self.contains(phase), self.nonempty)]
 
 
+class NVec:
+    """numpy-array stand-in: fixed-length vector of (symbolic) numbers; + - * / act element-wise, scalars broadcast"""
+
+    def __init__(self, items):
+        self.items = list(items)
+
+    def __repr__(self):
+        return "NVec%r" % (self.items,)
+
+
 class ClassRef:
     def __init__(self, cls):
         self.cls = cls
